@@ -1,6 +1,6 @@
 CONSTANTS
   Good <- MCGood3
-  Bad = {}
+  Bad <- MCBad3
   MaxOps = 4
   WithGet = FALSE
 INIT Init
